@@ -16,7 +16,8 @@ RACE = True
 JOBS = 8
 RULE = ("scenario = rate set (1-3 periods) through TokenLimiter.ServeHTTP or a bare TokenBucketSet with floods of refused requests "
         "(sequential, and concurrent: preq = n requests of one source from 16 goroutines at one frozen instant, repeated for several rounds "
-        "with paced requests in between that the long-period budget must still admit) "
+        "with paced requests in between that the long-period budget must still admit), overlapping refusals of two sources with "
+        "different delays (the first held inside the ErrorHandler between decision and response: park-reject / unpark) "
         "(at one instant and spread out, long enough to exhaust the longest-period budget if it were debited), retries exactly at / "
         "just before / after the advertised X-Retry-In, idle gaps around burst*tpt, amounts around every burst; "
         "non-trivial = at least one refusal followed by a retry or by further requests of the same source, and one admission")
@@ -83,8 +84,40 @@ def _concurrent_flood(rng, tier):
     return lines
 
 
+def _parked(rng):
+    """two refusals with different delays that overlap: a's refusal is held inside the error handler (after the limiter took
+    its decision) while b is refused; a must still be told its own delay, and its retry after that delay must pass"""
+    rates = rc.pick_rates(rng, rng.choice(["hyp", "hyp", "odd"]), nmax=2)
+    minb = min(r[2] for r in rates)
+    lines = ["cfg rate %s cap=%d" % (rc.fmt_rates(rates), rng.choice([3, 4]))]      # three sources: never an eviction
+    t = rng.choice([0, 3, S - 1])
+    for _ in range(rng.randint(1, 3)):
+        a, b = rng.sample(["a", "b", "c"], 2)
+        ma = rng.randint(1, minb)
+        mb = rng.randint(1, minb)
+        lines.append("at %d req %s %d" % (t, a, minb))          # drain a
+        if rng.random() < 0.5:
+            lines.append("at %d req %s %d" % (t, b, rng.randint(max(1, minb - mb + 1), minb)))   # leave b short of mb
+        else:
+            lines.append("at %d req %s %d" % (t, b, minb))
+        t += rng.choice([0, 0, 1, rc.tpt(rates[0]) // 2])
+        lines.append("park-reject")
+        lines.append("at %d req %s %d" % (t, a, ma))
+        for _ in range(rng.randint(1, 3)):
+            lines.append("at %d req %s %d" % (t, b, mb if rng.random() < 0.7 else rng.randint(1, minb)))
+            if rng.random() < 0.3:
+                t += 1
+        lines.append("unpark")
+        lines.append("retry" + rng.choice(["", "", " extra=1"]))
+        t += max(r[2] * rc.tpt(r) for r in rates) + (minb + 1) * max(rc.tpt(r) for r in rates)
+        t = min(t, 2 ** 50)
+    return lines
+
+
 def gen(rng, tier):
     n_scen = {"quick": 260, "thorough": 2500, "search": 300}.get(tier, 260)
+    for k in range({"quick": 30, "thorough": 200, "search": 60}.get(tier, 30)):
+        yield _parked(rng)
     for k in range({"quick": 12, "thorough": 60, "search": 20}.get(tier, 12)):
         yield _concurrent_flood(rng, tier)
     for k in range(n_scen):
@@ -154,6 +187,12 @@ def monitor(ops, outs):
             if st["alive"]:
                 ref_refill(st, e.t)
                 have = min(st["b"][r[0]][0] for r in rates)
+                if e.status == "429" and e.amount <= minb and have < e.amount:
+                    need = max((e.amount - st["b"][r[0]][0]) * rc.tpt(r) for r in rates)
+                    if e.delay < need:
+                        bad.append("delay: %s was told to wait %d ns, but debiting only its source's admitted requests the slowest "
+                                   "rate needs %d ns for the missing tokens: the advertised wait is not this request's own"
+                                   % (where, e.delay, need))
                 if e.status == "429" and e.amount <= minb and have >= e.amount:
                     bad.append("debit: %s refused (429 %d) although, debiting only its admitted requests, every rate still holds at "
                                "least %d tokens: refused requests have consumed quota" % (where, e.delay, have))
